@@ -624,6 +624,9 @@ V_C20(S, e, T, aux) ==
            \cup (IF increasing /\ vm.cfg.hcap # 0
                  THEN Tag(Abs(p2.size) <= vm.cfg.hcap, "C20.hcap") ELSE {})
    ELSE {})
+  \cup (IF EngOp(e, "open_position") /\ ~e.res.ok /\ e.res.err = "cap"
+           /\ \E i \in 1..Len(S.eng.whitelist) : S.eng.whitelist[i] = e.tx.s
+        THEN {"C20.whitelist_exempt"} ELSE {})
   \cup Tag(/\ RatioOk(T.eng.cfg.imr, T.eng.cfg.D) /\ RatioOk(T.eng.cfg.mmr, T.eng.cfg.D)
            /\ RatioOk(T.eng.cfg.liqfee, T.eng.cfg.D) /\ RatioOk(T.eng.cfg.plr, T.eng.cfg.D)
            /\ T.eng.cfg.mmr <= T.eng.cfg.imr, "C20.engine_config")
